@@ -237,6 +237,13 @@ def r4(ctx):
                 # on the Some path the push must be behind the peer comparison's "equal" edge
                 r_some = u.reachable(se[1], removed_edges=good) if se else set()
                 okp = bool(se) and bool(good) and bb not in u.reachable(se[1], removed_edges=good)
+            if not okp and not pv:
+                # `if st.peer.as_ref().is_some_and(|peer| peer != &from) { return }`: the push hangs on the false edge
+                for sbb, te, fe, o in guards_on(u, lambda o: o["k"] == "call" and re.search(r"Option::is_some_and$", o["t"]["f"])):
+                    at = Slicer(ctx.w).atoms(u, o["t"]["args"][0])
+                    ne_in = any(True for cid in closure_args(u, o["t"]) for fb in ctx.w.family(cid) for _ in fb.calls(re.compile(r"PartialEq>::ne$|^std::cmp::PartialEq::ne$")))
+                    if "field:turmoil_net::kernel::socket::Socket::peer" in at and ne_in and fe and u.dominated_by_any(bb, edges=fe):
+                        okp = True
             ctx.inst(R, "udp-deliver:connected-peer-filter", okp, t["s"], "a connected socket only receives from its peer" if okp else
                      "a datagram can be queued on a connected socket without passing the peer == source test")
         if not pushes:
@@ -253,6 +260,13 @@ def r5(ctx):
         kd = [bb for bb, t in f.calls(K + "deliver")]
         g = [t for bb, t in f.calls(re.compile(r"^indexmap::IndexMap::get$|HashMap::get$|BTreeMap::get$")) if _on_field(f, t["args"][0], "turmoil_net::fabric::Fabric::ip_to_host")]
         okk = bool(g) and "field:turmoil_net::kernel::packet::Packet::dst" in Slicer(ctx.w).atoms(f, g[0]["args"][1])
+        if not g:
+            # the lookup may sit behind an accessor (`host_for_ip(pkt.dst)`): the key used on `hosts` must still derive from
+            # ip_to_host indexed by the packet's destination
+            for bb, t in f.calls(re.compile(r"^indexmap::IndexMap::get_mut$|HashMap::get_mut$|BTreeMap::get_mut$")):
+                if _on_field(f, t["args"][0], "turmoil_net::fabric::Fabric::hosts"):
+                    at = Slicer(ctx.w, into_callees=2).atoms(f, t["args"][1])
+                    okk = "field:turmoil_net::fabric::Fabric::ip_to_host" in at and "field:turmoil_net::kernel::packet::Packet::dst" in at
         ves = [v for v in variant_edges(f, lambda p: True) if v[3] == "std::option::Option"]
         okd = bool(ves) and bool(kd) and ves[0][1].get("Some") and all(f.dominated_by_edge(x, ves[0][1]["Some"]) for x in kd)
         ctx.inst(R, "fabric:route-by-destination", okk and okd, f.span, "packet handed only to the host owning its destination address; unknown addresses dropped" if okk and okd else
